@@ -23,6 +23,7 @@
 #endif
 
 #include "chaiscript_defines.hpp"
+#include "chaiscript_verif.hpp"
 
 /// \file
 ///
@@ -38,6 +39,7 @@
 namespace chaiscript::detail::threading {
 #ifndef CHAISCRIPT_NO_THREADS
 
+#ifndef CHAISCRIPT_VERIF
   template<typename T>
   using unique_lock = std::unique_lock<T>;
 
@@ -46,6 +48,90 @@ namespace chaiscript::detail::threading {
 
   template<typename T>
   using lock_guard = std::lock_guard<T>;
+#else
+  // traced variants: one event after every acquisition and one before every release, both while the lock is held,
+  // and a scheduling point before blocking
+  template<typename T>
+  class unique_lock : public std::unique_lock<T> {
+  public:
+    explicit unique_lock(T &m)
+        : std::unique_lock<T>(m, std::defer_lock)
+        , m_m(&m) {
+      lock();
+    }
+    ~unique_lock() {
+      if (this->owns_lock()) {
+        CHAISCRIPT_VERIF_EVENT("rel", m_m, "", 1, 0, 0, "");
+      }
+    }
+    void lock() {
+      if (auto verif_sp = ::chaiscript::verif::hooks().sched_point) {
+        verif_sp(m_m, 1);
+      }
+      std::unique_lock<T>::lock();
+      CHAISCRIPT_VERIF_EVENT("acq", m_m, "", 1, 0, 0, "");
+    }
+    void unlock() {
+      CHAISCRIPT_VERIF_EVENT("rel", m_m, "", 1, 0, 0, "");
+      std::unique_lock<T>::unlock();
+    }
+
+  private:
+    const void *m_m;
+  };
+
+  template<typename T>
+  class shared_lock : public std::shared_lock<T> {
+  public:
+    explicit shared_lock(T &m)
+        : std::shared_lock<T>(m, std::defer_lock)
+        , m_m(&m) {
+      lock();
+    }
+    ~shared_lock() {
+      if (this->owns_lock()) {
+        CHAISCRIPT_VERIF_EVENT("rel", m_m, "", 0, 0, 0, "");
+      }
+    }
+    void lock() {
+      if (auto verif_sp = ::chaiscript::verif::hooks().sched_point) {
+        verif_sp(m_m, 0);
+      }
+      std::shared_lock<T>::lock();
+      CHAISCRIPT_VERIF_EVENT("acq", m_m, "", 0, 0, 0, "");
+    }
+    void unlock() {
+      CHAISCRIPT_VERIF_EVENT("rel", m_m, "", 0, 0, 0, "");
+      std::shared_lock<T>::unlock();
+    }
+
+  private:
+    const void *m_m;
+  };
+
+  template<typename T>
+  class lock_guard {
+  public:
+    explicit lock_guard(T &m)
+        : m_l(lock_first(m))
+        , m_m(&m) {
+      CHAISCRIPT_VERIF_EVENT("acq", m_m, "", 1, 0, 0, "");
+    }
+    ~lock_guard() { CHAISCRIPT_VERIF_EVENT("rel", m_m, "", 1, 0, 0, ""); }
+    lock_guard(const lock_guard &) = delete;
+    lock_guard &operator=(const lock_guard &) = delete;
+
+  private:
+    static T &lock_first(T &m) {
+      if (auto verif_sp = ::chaiscript::verif::hooks().sched_point) {
+        verif_sp(&m, 1);
+      }
+      return m;
+    }
+    std::lock_guard<T> m_l;
+    const void *m_m;
+  };
+#endif
 
   using std::shared_mutex;
 
